@@ -5,8 +5,10 @@
 mod custom;
 mod gen;
 mod props;
+mod refenc;
 mod session;
 mod streams;
+mod tcase;
 mod util;
 use util::*;
 
@@ -32,6 +34,10 @@ fn main() {
         std::process::exit(2);
     }
     let prop = args[1].clone();
+    if prop == "C20-child" {
+        props::simple::c20_child();
+        return;
+    }
     let mut ctx = Ctx { tier: "quick".into(), seed: 1, driver: "/verif/lean/.lake/build/bin/sstdriver".into(), threads: 8 };
     let mut out: Option<String> = None;
     let mut i = 2;
